@@ -1,6 +1,7 @@
 """C03 - typed values: acceptance, canonical form, equality, ordering"""
 from props import comps_types as T
 from props import comps_types2 as T2
+from props import comps_jsonnum
 
 PID = "C03"
 LEVEL = "proof"
@@ -12,7 +13,8 @@ def components():
 
 
 def oracles_():
-    return [T.RfcStoreOracle(), T.Dec64ExactBuf(), T2.SourceIndep(), T2.Types2Rfc()]
+    # JsonNumDenote (slice jsonnum): the text lyjson_number() hands to the type plugins denotes the JSON number that was written
+    return [T.RfcStoreOracle(), T.Dec64ExactBuf(), T2.SourceIndep(), T2.Types2Rfc(), comps_jsonnum.JsonNumDenote()]
 
 
 MANIFEST = {
